@@ -128,7 +128,11 @@ type FuncCtx struct {
 	nregion       int
 	sideSeen      map[string]bool
 	havocSources  []Term
-	concats       [][3]string // string concatenations (result, left, right) for the JSON-safety facts
+	inlineStack   []string // repository functions without a contract being executed in place
+	notes         []string
+	renamed       map[*types.Var]bool
+	nameAlias     map[string]*types.Var // contract name -> variable, for variables renamed since the contract was written
+	concats       [][3]string           // string concatenations (result, left, right) for the JSON-safety facts
 }
 
 type byteLeaf struct {
